@@ -15,7 +15,7 @@ use crate::engine::{guarded, hex, show, unhex, Report, Sys, Tier, Violation};
 use crate::refmodel::head;
 use crate::refmodel::reqvalid::{self, ReqFacts};
 
-pub const RULE: &str = "flows = every state of the redirect-chain graph (original GET / POST with authorization, cookie, content-length, x-keep; statuses {302,307}; Locations {same host /q, other host http://b.test/q, same host https}; both policies; depth 0..3; also a chain whose original request names its Host explicitly) x caller additions: all sequences of length 0..=3 (thorough 0..=4) over the pool {cookie: k=NEW1, cookie: k=NEW2, authorization: NEW, content-length: 0 (with send-body-despite-method), host: h.test, host: h.test:80, host: h.test:443 (default ports spelled out), expect: 100-continue, x-api-key with a value flagged sensitive, connection: close, x-a: 1, X-MiXeD: v, cookie and authorization EQUAL to the inherited ones, a non-UTF-8 cookie value} plus long sequences of n = 4..=60 additions cycling through the pool, each length with and without a Host among them (so that the Host header is derived); restricted to requests the validity model accepts; head written under twelve buffer schedules, once more with failing header() calls (invalid name / value) interspersed (send_body_despite_method() called before, between and after the additions), parsed back and compared in full with the reference head (added in order, derived headers, unsuppressed originals); plus a relative-URI request without any original header x all addition sequences of length 1..=2 over the non-framing, non-Host pool entries. distinct = distinct (flow state, addition sequence) pairs";
+pub const RULE: &str = "flows = every state of the redirect-chain graph (original GET / POST / HEAD with authorization, cookie, content-length, x-keep, and TRACE / OPTIONS / DELETE / CONNECT / PUT fresh and one hop further; statuses {302,307}; Locations {same host /q, other host http://b.test/q, same host https}; both policies; depth 0..3; also a chain whose original request names its Host explicitly) x caller additions: all sequences of length 0..=3 (thorough 0..=4) over the pool {cookie: k=NEW1, cookie: k=NEW2, authorization: NEW, content-length: 0 (with send-body-despite-method), host: h.test, host: h.test:80, host: h.test:443 (default ports spelled out), expect: 100-continue, x-api-key with a value flagged sensitive, connection: close, x-a: 1, X-MiXeD: v, cookie and authorization EQUAL to the inherited ones, a non-UTF-8 cookie value} plus long sequences of n = 4..=60 additions cycling through the pool, each length with and without a Host among them (so that the Host header is derived); restricted to requests the validity model accepts; head written under twelve buffer schedules, once more with failing header() calls (invalid name / value) interspersed (send_body_despite_method() called before, between and after the additions), parsed back and compared in full with the reference head (added in order, derived headers, unsuppressed originals); plus a relative-URI request without any original header x all addition sequences of length 1..=2 over the non-framing, non-Host pool entries. distinct = distinct (flow state, addition sequence) pairs";
 
 const POOL: [(&str, &[u8]); 16] = [("transfer-encoding", b"chunked"), ("cookie", b"k=NEW1"), ("cookie", b"k=NEW2"), ("authorization", b"NEW"), ("content-length", b"0"), ("host", b"h.test"), ("connection", b"close"), ("x-a", b"1"), ("X-MiXeD", b"v"), ("cookie", b"k=ORIG"), ("authorization", b"S3CRET"), ("cookie", b"caf\xe9"), ("x-api-key", b"K3Y"), ("host", b"h.test:80"), ("host", b"h.test:443"), ("expect", b"100-continue")];
 
@@ -43,6 +43,16 @@ fn chain_cfgs() -> Vec<Arc<ChainCfg>> {
             body = b"abc".to_vec();
         }
         out.push(Arc::new(ChainCfg { prop: "C16", req: r, body, statuses: vec![302, 307], locs: locs.clone(), max_hops: 3, check_credentials: true, check_target: false, refuse_expect: false }));
+    }
+    // the other methods (nothing about added headers depends on the method): fresh, and one hop further
+    for m in ["TRACE", "OPTIONS", "DELETE", "CONNECT", "PUT"] {
+        let mut r = ReqCfg::new(m, "1.1", "http://a.test/p").orig("authorization", "S3CRET").orig("cookie", "k=ORIG").orig("x-keep", "1");
+        let mut body = vec![];
+        if m == "PUT" {
+            r = r.orig("content-length", "3");
+            body = b"abc".to_vec();
+        }
+        out.push(Arc::new(ChainCfg { prop: "C16", req: r, body, statuses: vec![307, 302], locs: vec![Loc::one("/q")], max_hops: 1, check_credentials: true, check_target: false, refuse_expect: false }));
     }
     // an original request that names its Host explicitly (inherited along the chain, never derived)
     let r = ReqCfg::new("GET", "1.1", "http://a.test/p").orig("x-first", "1").orig("host", "explicit.test").orig("authorization", "S3CRET").orig("cookie", "k=ORIG");
